@@ -101,18 +101,26 @@ def oracle_mixture(case, ctx):
         p["maxval"] = p["minval"] + np.clip(p["maxval"] - p["minval"], 0.05, 20)
     w = np.exp(np.asarray(c["w"], np.float64) * 2.3)
     comp = eqx.filter_vmap(lambda q: c05.construct(fam, q))({kk: jnp.asarray(v) for kk, v in p.items()})
-    mix = lib_call("C18|dist|Mixture|construct", D.VmapMixture, comp, jnp.asarray(w))
     j = int(c["around"]) % k  # points are placed relative to component j: inside it, on its edges, outside its support
     pj = {kk: v[j] for kk, v in p.items()}
     x, kinds = _family_points(fam, pj, ev, c["kinds"], c["z"])
     who = f"dist|Mixture[{fam}]"
+    shift = float(c.get("shift") or 0.0)
+    if shift and fam in ("LogNormal", "Exponential"):
+        # components with DIFFERENT supports (shifted half-lines): a point can lie inside some supports and outside others
+        sh = np.arange(k, dtype=np.float64) * shift
+        comp = eqx.filter_vmap(lambda q, l: D.Transformed(c05.construct(fam, q), B.Loc(jnp.broadcast_to(l, ev))))(
+            {kk: jnp.asarray(v) for kk, v in p.items()}, jnp.asarray(sh))
+        x = x + sh[j]
+        who = f"dist|Mixture[shifted {fam}]"
+    mix = lib_call("C18|dist|Mixture|construct", D.VmapMixture, comp, jnp.asarray(w))
     if fam == "Gumbel" and np.any((x - p["loc"]) / p["scale"] < -GUMBEL_OVERFLOW):
         # open finding: a component whose own log-density overflows to -inf has an infinite gradient, which the
         # logsumexp multiplies by a zero weight.  Excluded by construction (and counted) so the search goes on.
         ctx.exclude("gumbel_mixture_component_overflow")
         who = f"dist|Mixture[Gumbel]|component_overflow"
     finite = check(mix, x, None, who, ctx)
-    ctx.hist("family", f"Mixture[{fam}]")
+    ctx.hist("family", who.split("|", 1)[1])
     if finite and any(kd != "bulk" for kd in kinds.reshape(-1).tolist()):
         ctx.mark_nontrivial(case)
 
@@ -134,6 +142,9 @@ def family_cases():
             c = draw(c05.mixture_cases())
             c["kinds"] = draw(st.lists(st.sampled_from(KINDS), min_size=2, max_size=2))
             c["around"] = draw(st.integers(0, 4))
+            c["shift"] = draw(st.sampled_from([0.0, 0.7, 3.0]))
+            if c["shift"]:
+                c["comp"] = draw(st.sampled_from(["LogNormal", "Exponential"]))
         else:
             c = draw(c05.family_cases())
         return {"kind": "family", "c": c}
